@@ -19,14 +19,14 @@ func init() {
 	register(&propDef{
 		ID:  "C09",
 		Run: runC09,
-		Explain: "Decided: (a) every malformed construct is reported: Compile adds ErrorEmptyStatement exactly under an empty argument list, ErrorMissingFunction under an unknown function name, ErrorUnterminated when the scan ends inside a statement, inherits the errors of nested compiles and adds factory errors under err != nil, and returns a non-nil error set exactly when it is not empty; (b) variable dispatch: a lone word is handed to stageSimpleVariable as the split argument itself; that function returns a GetMatch(index) stage on the integer path and a GetKey(word) stage otherwise; (c) the escape table maps exactly n, r, t to newline, carriage return, tab and every other character to itself; (d) characters are handled as runes consistently: the scanner never converts an indexed byte of the template to a rune, and the argument splitter classifies white space with one predicate in all its branches. " +
+		Explain: "Decided: (a) every malformed construct is reported: Compile adds ErrorEmptyStatement exactly under an empty argument list, ErrorMissingFunction under an unknown function name, ErrorUnterminated when the scan ends inside a statement, inherits the errors of nested compiles and adds factory errors under err != nil, and returns a non-nil error set exactly when it is not empty; (b) variable dispatch: a lone word is handed to stageSimpleVariable as the split argument itself; that function returns a GetMatch(index) stage on the integer path and a GetKey(word) stage otherwise; (c) the escape table maps exactly n, r, t to newline, carriage return, tab and every other character to itself; (d) characters are handled as runes consistently: the scanner never converts an indexed byte of the template to a rune, and the argument splitter classifies white space with one predicate in all its branches. Every argument of a statement is compiled by the recursive Compile on every path through the argument loop; no byte of the template is ever treated as a code point. " +
 			"NOT decided: literal round trip, argument splitting, quoting and nesting equivalence for every template - language-equivalence claims about two hand-written scanners.",
 		Assume: []string{},
 	})
 	register(&propDef{
 		ID:  "C11",
 		Run: runC11,
-		Explain: "Decided: (a) non-numeric input yields the error marker, never a number: in every stage closure of pkg/expressions/stdlib each (value, ok) or (value, err) result of a parse or typed-argument evaluation is tested before it can be overwritten or the closure returns, and on the failure branch the closure returns one of the Error* markers without using the value; (b) registry and documentation agree: every documented helper is registered (registered-but-undocumented helpers are listed as advisory); (c) two documented laws that are visible as branch guards: clamp answers min/max only strictly outside the bounds and the value exactly inside them, and the csv helper emits a field without doubling its quotes only where the field is known to contain none. " +
+		Explain: "Decided: (a) non-numeric input yields the error marker, never a number: in every stage closure of pkg/expressions/stdlib each (value, ok) or (value, err) result of a parse or typed-argument evaluation is tested before it can be overwritten or the closure returns, and on the failure branch the closure returns one of the Error* markers without using the value; (b) registry and documentation agree: every documented helper is registered (registered-but-undocumented helpers are listed as advisory); (c) two documented laws that are visible as branch guards: clamp answers min/max only strictly outside the bounds and the value exactly inside them, and the csv helper emits a field without doubling its quotes only where the field is known to contain none. (c') the csv helper evaluates every argument as the operand of its encoder and never returns an argument stage unchanged; unit scaling divides in floating point only; (d) stage closures keep no state between evaluations. " +
 			"NOT decided: every numeric and string law of the ~60 helpers (bucket floors, clamp bounds, separators, unit scaling, CSV quoting) - these are value-level.",
 		Assume: []string{},
 	})
@@ -317,6 +317,7 @@ func runC11(c *Ctx, r *Report) {
 	c11Clamp(c, r)
 	c11Csv(c, r)
 	c11CsvEncoded(c, r)
+	c11UnitScaling(c, r)
 	// (d) a helper is a function of its arguments: stage closures keep no state between evaluations
 	c05StagePurity(c, r, "C11-d")
 }
@@ -797,4 +798,50 @@ func c11CsvEncoded(c *Ctx, r *Report) {
 		r.Bad(rule, fi.Name, "argument evaluation", c.Pos(fi.Decl.Pos()), "no evaluation of an argument stage found in kfCsv")
 	}
 	r.Floor(rule, 2, "factory returns and the argument evaluation")
+}
+
+// c11UnitScaling (C11-c/unit-scaling): downscale / bytesize print n/step^rank
+// at the requested precision; the division must therefore happen in floating
+// point. An integer division of the running value drops the remainder of every
+// lower-order step (1999999 -> "1.9990M").
+func c11UnitScaling(c *Ctx, r *Report) {
+	const rule = "C11-c/unit-scaling"
+	fi := c.MustFunc(r, rule, "rare/pkg/humanize", "unitize")
+	if fi == nil {
+		return
+	}
+	info := fi.Pkg.TypesInfo
+	isIntExpr := func(e ast.Expr) bool {
+		if tv, ok := info.Types[e]; ok && tv.Value != nil {
+			return false
+		}
+		b, ok := info.TypeOf(e).Underlying().(*types.Basic)
+		return ok && b.Info()&types.IsInteger != 0
+	}
+	bad := ""
+	nFloat := 0
+	ast.Inspect(fi.Decl.Body, func(x ast.Node) bool {
+		switch t := x.(type) {
+		case *ast.BinaryExpr:
+			if t.Op == token.QUO || t.Op == token.REM {
+				if isIntExpr(t.X) {
+					bad = c.Pos(t.Pos()) + ": " + exprStr(t)
+				} else if t.Op == token.QUO {
+					nFloat++
+				}
+			}
+		case *ast.AssignStmt:
+			if (t.Tok == token.QUO_ASSIGN || t.Tok == token.REM_ASSIGN) && len(t.Lhs) == 1 {
+				if isIntExpr(t.Lhs[0]) {
+					bad = c.Pos(t.Pos()) + ": " + stmtStr(t)
+				} else if t.Tok == token.QUO_ASSIGN {
+					nFloat++
+				}
+			}
+		}
+		return true
+	})
+	r.Check(bad == "" && nFloat > 0, rule, fi.Name, "scaling division", c.Pos(fi.Decl.Pos()), "arith: the value is scaled by floating-point division only",
+		"unitize divides the value in the integer domain ("+bad+"): the remainders of the lower-order steps are dropped before the fraction is printed, so a requested precision shows wrong digits (1999999 at precision 4 prints 1.9990M instead of 2.0000M)")
+	r.Floor(rule, 1, "unitize")
 }
